@@ -441,6 +441,24 @@ class Interp:
                     lst[a[0][1]:a[1][1]] = seg
                     return None
                 raise Unsupported('call ' + SX.callee(e))
+            if k == 'call' and (SX.callee(e) or '').split('<')[0] in ('std::all_of', 'std::any_of', 'std::none_of') and len(SX.real_args(e)) == 3:
+                a = [self.expr(x, env) for x in SX.real_args(e)]
+                if all(isinstance(x, tuple) and x[0] == 'iter' and len(x) == 3 for x in a[:2]) and (a[0][2] is a[1][2] or a[0][2] == a[1][2]) \
+                        and isinstance(a[2], dict) and a[2].get('k') == 'lambda':
+                    seq = a[0][2]
+                    res = []
+                    for i_ in range(a[0][1], a[1][1]):
+                        x_ = seq[i_]
+                        lit = {'k': 'char', 'v': ord(x_)} if isinstance(x_, str) and len(x_) == 1 else ({'k': 'int', 'v': x_} if isinstance(x_, int) and not isinstance(x_, bool) else None)
+                        if lit is None:
+                            raise Unsupported('call ' + SX.callee(e))
+                        res.append(self.truth(self.invoke_closure(a[2], [lit], env)))
+                        # the standard algorithms stop at the first element that decides the answer
+                        if ('all_of' in SX.callee(e) and not res[-1]) or ('all_of' not in SX.callee(e) and res[-1]):
+                            break
+                    nm = SX.callee(e)
+                    return all(res) if 'all_of' in nm else (any(res) if 'any_of' in nm else not any(res))
+                raise Unsupported('call ' + SX.callee(e) + ' ' + SX.show(e)[:60])
             if k == 'call' and (SX.callee(e) or '').split('<')[0] in ('std::find_if', 'std::find_if_not') and len(SX.real_args(e)) == 3:
                 a = [self.expr(x, env) for x in SX.real_args(e)]
                 if all(isinstance(x, tuple) and x[0] == 'iter' and len(x) == 3 for x in a[:2]) and (a[0][2] is a[1][2] or a[0][2] == a[1][2]) \
